@@ -22,8 +22,11 @@ PROPERTY = "C01"
 RULE = ("structural heads (prefix|none) x opcode x second byte enumerated (complete in thorough; quick = 1/16 "
         "stratified + every head of the operand-validating opcodes) with hash tails at boundary addresses; each "
         "accepted head re-decoded under all truncations and hostile tails; plus Hypothesis raw byte strings and "
-        "decode histories. Non-trivial = head accepted as an instruction, or rejected after consuming >= 2 bytes "
-        "(operand validation); distinct = distinct (pre, opcode, b2).")
+        "decode histories; routine sweeps into one shared IL function with registered block labels; streamed decodes "
+        "(fusion(iter_decode)) vs stand-alone decode; harness-scheduled pre-emption of one callback by another. "
+        "Non-trivial = head accepted as an instruction, or rejected after consuming >= 2 bytes "
+        "(operand validation), routine with >= 2 instructions, stream with an instruction following a prefixed one, "
+        "pre-emption pair on different bytes; distinct = distinct (pre, opcode, b2) / distinct buffer.")
 
 VALIDATING_OPCODES = sorted(set(
     [0x56, 0x5E, 0xED, 0xFD, 0x11]
@@ -463,6 +466,46 @@ def _hyp_emu_history(seed: int, n: int) -> Report:
     return rep
 
 
+def _sched_task(t: Tuple[str, str, int, int]) -> Report:
+    """routine / stream / preempt sub-checks (see c01_sched.py).  t = (prop, kind, seed, n)."""
+    from . import c01_sched as S
+
+    prop, kind, seed, n = t
+    _preload()
+    rep = Report()
+    pool = [b for _p, b in G.sample_valid_encodings(mix32(seed, 0x51), 1500)[0]]
+    for i in range(n):
+        cs = mix32(seed, 0x52, i)
+        if kind == "routine":
+            buf, base, extra = S.gen_routine(cs, pool)
+            vs, n_ins, _hits = S.routine_violations(buf, base, extra)
+            for v in vs:
+                rep.violate(v)
+            rep.case(f"routine:{buf.hex()}:{base}" if n_ins >= 2 else None, ["kind:routine"],
+                     {"routine": buf.hex(), "base": f"{base:#x}", "labels": extra} if i % 400 == 1 else None)
+        elif kind == "stream":
+            buf, addr, _n = S.gen_stream(cs, pool)
+            vs, n_ins, after_pre = S.stream_violations(prop, buf, addr)
+            for v in vs:
+                rep.violate(v)
+            rep.case(f"stream:{buf.hex()}:{addr}" if after_pre >= 1 else None, ["kind:stream"],
+                     {"stream": buf.hex(), "addr": f"{addr:#x}", "instructions": n_ins} if i % 400 == 1 else None)
+        else:
+            cbs = ("text", "info", "il", "rt", "emu")
+            h = mix32(cs, 1)
+            a = [cbs[h % 5] if prop == "C01" else ("text", "rt", "il")[h % 3], (pool[(h >> 4) % len(pool)] + bytes(4)).hex(),
+                 ADDRS[(h >> 20) % len(ADDRS)]]
+            h2 = mix32(cs, 2)
+            b = [cbs[h2 % 5], (pool[(h2 >> 4) % len(pool)] + bytes((h2 >> 24) % 3)).hex(), ADDRS[(h2 >> 20) % len(ADDRS)]]
+            kfrac = mix32(cs, 3) % 10000
+            vs, inf = S.preempt_violations(prop, a, b, kfrac)
+            for v in vs:
+                rep.violate(v)
+            rep.case(f"preempt:{a}:{b}:{kfrac}" if inf.get("lines", 0) > 0 and a[1] != b[1] else None, ["kind:preempt"],
+                     {"a": a, "b": b, "line": inf.get("k"), "lines": inf.get("lines")} if i % 300 == 1 else None)
+    return rep
+
+
 def _preload() -> None:
     """Import every repository module the checks use before Hypothesis generates anything (Hypothesis harvests
     constants from loaded local modules, so lazy imports would make generation depend on import order)."""
@@ -493,6 +536,10 @@ def run(ctx: Ctx) -> Report:
             [("hist", ctx.shard_seed(200 + i), n_hist // 8) for i in range(8)] + \
             [("emu", ctx.shard_seed(300 + i), n_emu // 8) for i in range(8)]
     reports += ctx.pmap(_raw_task, extra)
+    n_rt, n_st, n_pe = ctx.pick(1600, 16000), ctx.pick(3200, 32000), ctx.pick(1600, 12000)
+    reports += ctx.pmap(_sched_task, [(PROPERTY, k, ctx.shard_seed(400 + 10 * j + i), n // 8)
+                                      for j, (k, n) in enumerate((("routine", n_rt), ("stream", n_st), ("preempt", n_pe)))
+                                      for i in range(8)])
     rep = ctx.merge_reports(reports)
     rep.rule = RULE
     rep.exhaustive = ctx.tier == "thorough"
@@ -523,6 +570,14 @@ def replay(ctx: Ctx, case: Dict[str, Any]) -> List[Violation]:
         return rep.violations
     if case.get("kind") == "emu-history":
         return emu_history_violations(case["ops"])[0]
+    if case.get("kind") in ("routine", "stream", "preempt"):
+        from . import c01_sched as S
+
+        if case["kind"] == "routine":
+            return S.routine_violations(bytes.fromhex(case["data"]), int(case["addr"]), list(case.get("labels", [])))[0]
+        if case["kind"] == "stream":
+            return S.stream_violations(PROPERTY, bytes.fromhex(case["data"]), int(case["addr"]))[0]
+        return S.preempt_violations(PROPERTY, case["a"], case["b"], int(case["kfrac"]))[0]
     if case.get("kind") == "history" and "history" in case:
         first: Dict[Any, Any] = {}
         for hx, addr in case["history"]:
